@@ -12,6 +12,9 @@ TARGETS.update({"C03-r2": "C03 C10 C09 C02 C20", "C04-r2": "C04 C09", "C08-r2": 
                 "C17-r2": "C17 C16", "C18-r2": "C18", "C20-r2": "C20 C01 C02 C07 C03"})
 TARGETS.update({"C04-r3": "C04 C09", "C05-r3": "C05 C10 C03 C12", "C06-r3": "C06", "C09-r3": "C09 C10 C03 C04", "C10-r3": "C10 C09 C03 C11 C12 C05",
                 "C12-r3": "C12 C13", "C13-r3": "C13 C10 C03 C02", "C15-r3": "C15 C16 C14", "C16-r3": "C16 C14"})
+TARGETS.update({"C01-r3": "C01 C20 C07 C08", "C02-r3": "C02 C03 C20 C13", "C03-r3": "C03 C02 C09 C10 C11 C12 C05 C04 C20", "C07-r3": "C07 C08 C01 C20",
+                "C08-r3": "C08 C07 C04", "C11-r3": "C11 C03 C10", "C14-r3": "C14 C16 C12 C13", "C17-r3": "C17 C16", "C18-r3": "C18", "C19-r3": "C19",
+                "C20-r3": "C20 C01 C02 C03 C07 C08 C10 C12"})
 names = sys.argv[1:] or sorted(n for n in TARGETS if os.path.isdir("/verif/seeded/" + n))
 for n in names:
     ids = TARGETS[n]
